@@ -229,10 +229,13 @@ def tlc(workdir, module, cfg=None, env=None, workers=None, timeout=900, simulate
                            capture_output=True, text=True, errors="replace")
     finally:
         shutil.rmtree(md, ignore_errors=True)
-    if r.returncode == 124 and not allow_timeout:
+    wall = time.time() - t0
+    # (timeout(1) reports 124, or 137 when TLC had to be killed after the grace period)
+    timed_out = r.returncode in (124, 137) or (r.returncode != 0 and wall >= timeout - 2)
+    if timed_out and not allow_timeout:
         raise Infra("TLC timed out after %ds on %s" % (timeout, module))
-    res = TlcResult(r.returncode, r.stdout + r.stderr, time.time() - t0)
-    res.timed_out = r.returncode == 124
+    res = TlcResult(r.returncode, r.stdout + r.stderr, wall)
+    res.timed_out = timed_out
     return res
 
 
